@@ -102,9 +102,9 @@ pub fn malformed_gen(depth: usize) -> Vec<(String, &'static str, bool)> {
         }
     }
     // identifiers containing a forbidden character
-    for w in words(&["a", "_", "0", "😀"], depth + 1) {
+    for w in words(&["a", "_", "0", "😀", "©", "é"], depth + 1) {
         let first = w.chars().next();
-        if w.contains('😀') && first != Some('0') {
+        if (w.contains('😀') || w.contains('©')) && first != Some('0') {
             v.push((w, "bad_identifier", false));
         }
     }
